@@ -18,6 +18,7 @@
 //             automatic sparse->dense switch happens mid-history at every position the heuristic allows
 //   nlfw      NodeLocationsForWays: all node streams over {+-1,+-2,+-3,big} in every order, a way after every
 //             prefix, every (positive index, negative index) pair, with and without ignore_errors()
+//   asan      (AddressSanitizer build) short histories and FlexMem switch permutations on the heap-backed types, fork-isolated
 //   bulk      N consecutive ids (minus a few holes) in ascending / descending / pair-swapped / bit-reversed
 //             order into every type: quick N = 2^21+2 (1 Mi-element growth steps, 10 MiB dump window),
 //             thorough N = 2^24+2 (the real FlexMem threshold 0xffffff); four members of the order space
@@ -52,6 +53,7 @@ static std::unordered_set<uint64_t> g_states;
 static std::string g_tmp;          // prefix of scratch files under /dev/shm
 static Args g_args;
 static unsigned g_samples = 0;
+static std::string g_only;         // diagnostics: --only <impl config> restricts part hist to one configuration
 
 static const Id K16 = 1ull << 16, K20 = 1ull << 20, K24 = 1ull << 24, WIN = 1310720;   // WIN: 10 MiB / sizeof(Location)
 static const Id DENSE_MAX_ID = K24 + 2;   // dense types allocate id*8 bytes: never feed them anything larger
@@ -296,7 +298,7 @@ static bool run_trace(const Trace& t) {
 //   cost 1 (dense_mem_array)      cheap ids: len <= len_vec;   with an id >= 2^24-1: len <= len_noncheap
 //   cost 2 sparse (mmap/file)     len <= len_slow_sparse over all 20 ids
 //   cost 2 dense  (mmap/file)     cheap ids: len <= len_slow, one longer over the growth-step ids G; with an id >= 2^24-1: len <= len_noncheap
-//   quick only: next to an id >= 2^24-1 (a 128 MiB fill per instance) the dense types get partner ids from P only
+//   next to an id >= 2^24-1 (a 128 MiB fill per instance) the dense types get partner ids from P only (thorough: when len > 2)
 struct HistBounds { size_t len_mem, len_vec, len_slow, len_slow_sparse, len_noncheap, step_fast, step_slow; bool restrict_partners; size_t len_path; };
 static const std::vector<Id> A_GROW = {0, K16, K20 - 1, K20, K20 + 1, WIN - 1, WIN, WIN + 1};
 static const std::vector<Id> A_PARTNER = {0, K16, K20 + 1, WIN + 1};
@@ -313,7 +315,7 @@ static bool admits(const Impl& im, const std::vector<Id>& ids, const HistBounds&
     if (im.cost == 0) return ids.size() <= b.len_mem;
     if (im.with_path && ids.size() > b.len_path) return false;     // differs from the tmpfile variant only in how the fd is obtained
     if (!im.dense_like) return ids.size() <= b.len_slow_sparse;
-    if (noncheap) return ids.size() <= b.len_noncheap && (partners_ok || !b.restrict_partners);
+    if (noncheap) return ids.size() <= b.len_noncheap && (partners_ok || (!b.restrict_partners && ids.size() <= 2));
     if (im.cost == 1) return ids.size() <= b.len_vec;
     return ids.size() <= b.len_slow || (all_grow && ids.size() <= b.len_slow + 1);
 }
@@ -334,6 +336,7 @@ static void hist_visit(const std::vector<Id>& ids, const HistBounds& b) {
         if (!ids.empty()) ++C["distinct_nontrivial"];
         for (const auto& im : impls()) {
             if (!admits(im, ids, b)) continue;
+            if (!g_only.empty() && im.name != g_only) continue;
             bool big = !ids.empty() && im.dense_like && *std::max_element(ids.begin(), ids.end()) > WIN + 1;
             if ((im.cost == 2 || (im.cost == 1 && big)) && s != static_cast<int>(rank % 3)) continue;     // expensive instances: one scheme per history
             int k_end = im.flex == 2 ? static_cast<int>(ids.size()) : 0;
@@ -361,7 +364,7 @@ static void hist_dfs(std::vector<Id>& cur, const std::vector<Id>& alpha, const H
 }
 
 static void part_hist() {
-    HistBounds b = g_args.thorough ? HistBounds{5, 5, 4, 4, 3, 3, 3, false, 9} : HistBounds{4, 3, 2, 2, 2, 3, 1, true, 1};
+    HistBounds b = g_args.thorough ? HistBounds{5, 4, 3, 3, 3, 3, 3, false, 2} : HistBounds{4, 3, 2, 2, 2, 3, 1, true, 1};
     std::vector<Id> alpha = A_CHEAP;
     alpha.insert(alpha.end(), A_EXP.begin(), A_EXP.end());
     alpha.insert(alpha.end(), A_HUGE.begin(), A_HUGE.end());
@@ -370,7 +373,7 @@ static void part_hist() {
     benum::bound("hist: every sequence of distinct ids over 20 boundary ids: len<=" + std::to_string(b.len_mem) + " for 5 in-memory configs (dense-like: the 15 ids <= 2^24+1); len<=" +
                  std::to_string(b.len_slow_sparse) + " for 3 sparse mmap/file configs; 12 ids <= 1310721: len<=" + std::to_string(b.len_vec) + " dense_mem_array, len<=" + std::to_string(b.len_slow) +
                  " (len<=" + std::to_string(b.len_slow + 1) + " over 8 growth-step ids) for 3 dense mmap/file configs; with an id near 2^24: len<=" + std::to_string(b.len_noncheap) + " for those 4" +
-                 (b.restrict_partners ? " (partner from {0,2^16,2^20+1,1310721} or near 2^24)" : "") + "; stepwise len 2.." + std::to_string(b.step_fast) +
+                 (b.restrict_partners ? " (partner from {0,2^16,2^20+1,1310721} or near 2^24)" : " (len 3: partners from {0,2^16,2^20+1,1310721} or near 2^24)") + "; stepwise len 2.." + std::to_string(b.step_fast) +
                  (b.step_slow >= 2 ? " (mmap/file: 2.." + std::to_string(b.step_slow) + ")" : " (in-memory configs)") +
                  (b.len_path < 9 ? "; file types created with a file name: len<=" + std::to_string(b.len_path) : ""), g_hist_complete);
 }
@@ -546,7 +549,7 @@ static bool run_dump(const std::vector<Id>& ids, int scheme, bool full) {
 static void part_dump() {
     bool complete = true;
     uint64_t rank = 0;
-    size_t maxlen = g_args.thorough ? 4 : 3;
+    size_t maxlen = 3;
     std::vector<Id> alpha = A_DUMP;
     alpha.push_back(1ull << 32); alpha.push_back(~0ull);      // list dumps only (no array dump above 3 windows)
     std::vector<Id> cur;
@@ -786,8 +789,8 @@ static void part_nlfw() {
     for (auto* a : mem) for (auto* b : mem) pairs.push_back({a, b, len_mem});
     for (auto* x : slow) {
         if (g_args.thorough) {
-            for (auto* y : slow) pairs.push_back({x, y, len_slow});
-            for (auto* y : mem) { pairs.push_back({x, y, len_slow}); pairs.push_back({y, x, len_slow}); }
+            for (auto* y : slow) pairs.push_back({x, y, x == y ? len_slow : 2});
+            for (auto* y : mem) { pairs.push_back({x, y, 2}); pairs.push_back({y, x, 2}); }
         } else {
             pairs.push_back({x, x, len_slow});
         }
@@ -827,7 +830,7 @@ static void part_nlfw() {
         dfs();
     }
     benum::bound("nlfw: every node stream of distinct ids len<=" + std::to_string(len_mem) + " over {1,2,3,-1,-2,-3,2^32|2^16} for all " + std::to_string(mem.size() * mem.size()) +
-                 " pairs of in-memory index types, len<=" + std::to_string(len_slow) + " for " + std::to_string(pairs.size() - mem.size() * mem.size()) + " pairs with mmap/file/array types; x way position x {strict, ignore_errors}", complete);
+                 " pairs of in-memory index types, len<=2 (same type twice: len<=" + std::to_string(len_slow) + ") for " + std::to_string(pairs.size() - mem.size() * mem.size()) + " pairs with mmap/file/array types; x way position x {strict, ignore_errors}", complete);
 }
 
 // ------------------------------------------------------------------------------------------------
@@ -961,6 +964,84 @@ static void part_bulk() {
 }
 
 // ------------------------------------------------------------------------------------------------
+// part asan (AddressSanitizer build, FlexMem threshold hooked to 7): the in-memory configurations (heap memory, so
+// ASan sees every access; mmap-backed types have no redzones) in forked children. Rank-addressable cases:
+//   [0, H)        every sequence of distinct ids, len <= 3, over {0,1,2,2^16-1,2^16,2^16+1}: all configs with cost <= 1,
+//                 modes E and S, plus NodeLocationsForWays over (sparse_mem_array, dense_mem_array)
+//   [H, H+5040)   every permutation of {3..9} through the auto-switching FlexMem
+static std::vector<std::vector<Id>> asan_histories() {
+    std::vector<std::vector<Id>> out;
+    const std::vector<Id> alpha = {0, 1, 2, K16 - 1, K16, K16 + 1};
+    std::vector<Id> cur;
+    std::function<void()> dfs = [&]() {
+        out.push_back(cur);
+        if (cur.size() >= 3) return;
+        for (Id a : alpha) if (!in(cur, a)) { cur.push_back(a); dfs(); cur.pop_back(); }
+    };
+    dfs();
+    return out;
+}
+
+static std::vector<Id> nth_permutation(std::vector<Id> pool, uint64_t n) {     // factoradic unranking
+    std::vector<Id> out;
+    uint64_t f = 1;
+    for (uint64_t i = 2; i < pool.size(); ++i) f *= i;
+    for (size_t left = pool.size(); left > 0; --left) {
+        uint64_t idx = n / f; n %= f;
+        out.push_back(pool[idx]); pool.erase(pool.begin() + static_cast<long>(idx));
+        if (left > 1) f /= (left - 1);
+    }
+    return out;
+}
+
+static void asan_case(uint64_t rank, const std::vector<std::vector<Id>>& H) {
+    int scheme = static_cast<int>(rank % 3);
+    ++C["histories"];
+    if (rank < H.size()) {
+        const std::vector<Id>& ids = H[rank];
+        if (!ids.empty()) ++C["distinct_nontrivial"];
+        for (const auto& im : impls()) {
+            if (im.cost > 1) continue;
+            int k_end = im.flex == 2 ? static_cast<int>(ids.size()) : 0;
+            for (int k = 0; k <= k_end; ++k) {
+                run_trace(Trace{&im, ids, scheme, 'E', k});
+                if (ids.size() >= 2) run_trace(Trace{&im, ids, scheme, 'S', k});
+            }
+        }
+        std::vector<SId> sids;
+        for (size_t i = 0; i < ids.size(); ++i) sids.push_back(i % 2 ? -static_cast<SId>(ids[i]) - 1 : static_cast<SId>(ids[i]) + 1);
+        std::vector<SId> alpha = sids; alpha.push_back(5); alpha.push_back(-5);
+        for (int wp = 0; wp <= static_cast<int>(sids.size()); ++wp)
+            run_nlfw(NlfwCase{impl_by_name("sparse_mem_array"), impl_by_name("dense_mem_array"), true, wp, sids, alpha, scheme});
+    } else {
+        ++C["distinct_nontrivial"];
+        std::vector<Id> p = nth_permutation({3, 4, 5, 6, 7, 8, 9}, rank - H.size());
+        run_flex(p, scheme, 'E', nullptr) && run_flex(p, scheme, 'S', nullptr);
+    }
+}
+
+static std::string asan_describe(uint64_t rank, const std::vector<std::vector<Id>>& H) {
+    if (rank < H.size()) return "history [" + ids_text(H[rank]) + "] on the in-memory configurations";
+    return "permutation [" + ids_text(nth_permutation({3, 4, 5, 6, 7, 8, 9}, rank - H.size())) + "] through FlexMem (threshold 7)";
+}
+
+static bool asan_run(uint64_t begin, uint64_t end, const std::vector<std::vector<Id>>& H) {
+    return benum::run_isolated(g_args, begin, end, [&](uint64_t r) { asan_case(r, H); },
+        [&](uint64_t r, const std::string& what, const std::string& err) {
+            V.report("memory/" + benum::death_class(what, err) + (r < H.size() ? "/short-history" : "/flexmem-switch-permutation"),
+                     asan_describe(r, H) + ": child died (" + what + "): " + benum::clean(err.substr(0, 700), 700), "asan;" + std::to_string(r));
+        });
+}
+
+static void part_asan() {
+    if (Flex::min_dense_entries != 7) { fprintf(stderr, "h12: part asan needs the build with hook H7 (min_dense_entries=7)\n"); exit(2); }
+    std::vector<std::vector<Id>> H = asan_histories();
+    bool complete = asan_run(0, H.size() + 5040, H);
+    benum::bound("asan: " + std::to_string(H.size()) + " histories (len<=3 over {0,1,2,2^16-1,2^16,2^16+1}) x 6 in-memory configs x {E,S} + NodeLocationsForWays, and 5040 permutations of {3..9} "
+                 "through FlexMem(threshold 7), under AddressSanitizer in forked children", complete);
+}
+
+// ------------------------------------------------------------------------------------------------
 static int replay(const std::string& spec) {
     std::vector<std::string> f = split(spec, ';');
     if (f[0] == "hist" && f.size() == 6) {
@@ -976,6 +1057,11 @@ static int replay(const std::string& spec) {
         const Impl* p = impl_by_name(f[1]); const Impl* n = impl_by_name(f[2]);
         if (!p || !n) return 2;
         run_nlfw(NlfwCase{p, n, f[3] == "1", atoi(f[4].c_str()), sids(f[6]), sids(f[7]), atoi(f[5].c_str())});
+    } else if (f[0] == "asan" && f.size() == 2) {
+        std::vector<std::vector<Id>> H = asan_histories();
+        uint64_t r = strtoull(f[1].c_str(), nullptr, 10);
+        g_args.nshards = 1; g_args.shard = 0;
+        asan_run(r, r + 1, H);
     } else if (f[0] == "bulk" && f.size() == 5) {
         const Impl* im = impl_by_name(f[1]);
         if (!im) return 2;
@@ -989,6 +1075,7 @@ static int replay(const std::string& spec) {
 
 int main(int argc, char** argv) {
     g_args = benum::parse_args(argc, argv);
+    if (g_args.shard % 8 != 0) g_samples = 100;      // SAMPLE lines from two shards per part (the driver keeps 24 in total)
     // keep freed heap memory in the process: 10^5..10^6 index instances allocate and free 0.5..10 MiB each, and
     // returning it to the kernel every time makes page faults (expensive in this VM) dominate the run
     mallopt(M_MMAP_THRESHOLD, 32 * 1024 * 1024);
@@ -1008,7 +1095,10 @@ int main(int argc, char** argv) {
     }
     if (g_args.replay) return replay(g_args.replay_spec);
     std::string part;
-    for (size_t i = 0; i + 1 < g_args.rest.size(); ++i) if (g_args.rest[i] == "--part") part = g_args.rest[i + 1];
+    for (size_t i = 0; i + 1 < g_args.rest.size(); ++i) {
+        if (g_args.rest[i] == "--part") part = g_args.rest[i + 1];
+        if (g_args.rest[i] == "--only") g_only = g_args.rest[i + 1];
+    }
     {
         std::string types;
         for (const auto& t : osmium::index::MapFactory<Id, Loc>::instance().map_types()) types += t + " ";
@@ -1019,6 +1109,7 @@ int main(int argc, char** argv) {
     else if (part == "flexperm") part_flexperm();
     else if (part == "nlfw") part_nlfw();
     else if (part == "bulk") part_bulk();
+    else if (part == "asan") part_asan();
     else { fprintf(stderr, "h12: unknown --part '%s'\n", part.c_str()); return 2; }
     C.emit();
     char buf[32];
